@@ -132,8 +132,7 @@ func (*UnimplementedPreSharedKeyExtension) SetOmitEmptyPsk(val bool) {
 type UtlsPreSharedKeyExtension struct {
 	UnimplementedPreSharedKeyExtension
 	PreSharedKeyCommon
-	cipherSuite  *cipherSuiteTLS13
-	cachedLength *int
+	cipherSuite *cipherSuiteTLS13
 	// Deprecated: Set OmitEmptyPsk in Config instead.
 	OmitEmptyPsk bool
 }
@@ -184,12 +183,7 @@ func (e *UtlsPreSharedKeyExtension) Len() int {
 	if e.Session == nil {
 		return 0
 	}
-	if e.cachedLength != nil {
-		return *e.cachedLength
-	}
-	length := pskExtLen(e.Identities, e.Binders)
-	e.cachedLength = &length
-	return length
+	return pskExtLen(e.Identities, e.Binders)
 }
 
 func readPskIntoBytes(b []byte, identities []PskIdentity, binders [][]byte) (int, error) {
@@ -255,8 +249,11 @@ func (e *UtlsPreSharedKeyExtension) SetOmitEmptyPsk(val bool) {
 }
 
 func (e *UtlsPreSharedKeyExtension) Read(b []byte) (int, error) {
-	if !e.OmitEmptyPsk && e.Len() == 0 {
-		return 0, ErrEmptyPsk
+	if e.Len() == 0 {
+		if !e.OmitEmptyPsk {
+			return 0, ErrEmptyPsk
+		}
+		return 0, io.EOF
 	}
 	return readPskIntoBytes(b, e.Identities, e.Binders)
 }
